@@ -173,6 +173,14 @@ def run(ctx):
         ctx.count()
         ctx.mark(('wire', grant), True)
         ctx.hist('directed:wire-level-short-write')
+    for tag, fn in (('stop-with-buffered-reply', lambda: tg.stop_with_buffered_reply(ctx, rng, 'C01')),
+                    ('odd-destinations', lambda: tg.odd_destinations(ctx, rng, 'C01'))):
+        ins, outs = fn()
+        all_in.append(ins)
+        all_out.append(outs)
+        ctx.count()
+        ctx.mark(('directed', tag), True)
+        ctx.hist('directed:' + tag)
     n = ctx.scale(60, 1500)
     for k in range(n):
         o = tg.Opts(nflows=rng.choice([1, 1, 2, 3, 4]), steps=rng.randrange(20, 90),
@@ -215,6 +223,10 @@ def replay(ctx, rep):
                 up, down = wrote.get((i, 'app'), b''), wrote.get((i, 'dst'), b'')
                 if f.app.eof_in and f.dst.eof_in and (f.dst.delivered != up or f.app.delivered != down):
                     return True, 'flow %d: bytes missing at the end of the recorded schedule' % i
+        if 'destination-form' in rep.get('key', ''):
+            for i, f in enumerate(t.flows):
+                if not f.s_ever:
+                    return True, 'flow %d: the server never opened the destination the client asked for' % i
         return False, 'prefix relation holds on the recorded schedule'
     finally:
         s.close()
